@@ -347,3 +347,60 @@ def names_in(expr):
 
 def attrs_in(expr):
     return {dotted(n) for n in ast.walk(expr) if isinstance(n, ast.Attribute) and dotted(n)}
+
+
+# --------------------------------------------------------------------------
+# evaluation of a pure guard expression over a small enumerated domain
+class Unknown(Exception):
+    pass
+
+
+def eval_pure(e, env):
+    """Evaluate a side-effect-free expression built from constants, names,
+    tuples, comparisons, boolean operators and unary not/minus.  Anything
+    else raises Unknown.  Used to tabulate guards over abstract domains."""
+    if isinstance(e, ast.Constant):
+        return e.value
+    if isinstance(e, ast.Name):
+        if e.id in env:
+            return env[e.id]
+        raise Unknown(e.id)
+    if isinstance(e, ast.Tuple):
+        return tuple(eval_pure(x, env) for x in e.elts)
+    if isinstance(e, ast.UnaryOp):
+        v = eval_pure(e.operand, env)
+        if isinstance(e.op, ast.Not):
+            return not v
+        if isinstance(e.op, ast.USub):
+            return -v
+        raise Unknown(type(e.op).__name__)
+    if isinstance(e, ast.BoolOp):
+        if isinstance(e.op, ast.And):
+            r = True
+            for x in e.values:
+                r = eval_pure(x, env)
+                if not r:
+                    return r
+            return r
+        r = False
+        for x in e.values:
+            r = eval_pure(x, env)
+            if r:
+                return r
+        return r
+    if isinstance(e, ast.Compare):
+        left = eval_pure(e.left, env)
+        for op, c in zip(e.ops, e.comparators):
+            right = eval_pure(c, env)
+            ok = {ast.Eq: lambda a, b: a == b, ast.NotEq: lambda a, b: a != b,
+                  ast.Lt: lambda a, b: a < b, ast.LtE: lambda a, b: a <= b,
+                  ast.Gt: lambda a, b: a > b, ast.GtE: lambda a, b: a >= b,
+                  ast.Is: lambda a, b: a is b, ast.IsNot: lambda a, b: a is not b,
+                  ast.In: lambda a, b: a in b, ast.NotIn: lambda a, b: a not in b}.get(type(op))
+            if ok is None:
+                raise Unknown(type(op).__name__)
+            if not ok(left, right):
+                return False
+            left = right
+        return True
+    raise Unknown(type(e).__name__)
